@@ -18,7 +18,7 @@ RUN_TIMEOUT = 120
 SELFTEST_PAIRS = {"quick": 12, "thorough": 30}
 PROBES = ["predicate_reject", "predicate_accept", "boundary_exact", "directory_entries_present", "empty_entry_with_compressed_bytes", "forged_real_zip",
           "in_memory_zipinfo_list", "ordering_rejected_before_any_member_open", "ordering_accepted_validated_first", "position_preserved_on_reject",
-          "position_preserved_on_accept", "same_stream_object_reused", "duplicate_entry_names", "float_ratio_limits", "extractor_history"]
+          "position_preserved_on_accept", "same_stream_object_reused", "duplicate_entry_names", "float_ratio_limits", "extractor_history", "file_entry_with_directory_attribute"]
 RULE = ("predicate runs: entry vectors (file_size, compress_size, is_dir) on a boundary lattice x limit settings, served as in-memory ZipInfo lists "
         "and as real ZIPs with forged central directories to validate_zipfile / open_zipfile / validate_zip_bytesio, against a reference predicate; "
         "ordering runs: histories of 2-6 extractions through the ten ZIP-container extractors on corpus containers whose central directory is "
@@ -133,6 +133,10 @@ def _gen_entries(rng, lim):
     return ents
 
 
+# external attributes a packer (or an attacker) may put on a *file* entry: only the trailing slash makes an entry a directory
+ATTRS = [0, 0x10, 0x10 | (0o40755 << 16), 0o100644 << 16, 0x20, 0o120777 << 16, 0xFFFFFFFF]
+
+
 def gen_case(rng: random.Random, tier: str) -> dict:
     if rng.random() < 0.55:
         cases = []
@@ -140,6 +144,7 @@ def gen_case(rng: random.Random, tier: str) -> dict:
             lim = _gen_limits(rng)
             cases.append({"lim": lim, "entries": _gen_entries(rng, lim), "real": rng.random() < 0.45, "pos": rng.choice([0, 0, 5, 17, 10 ** 6]),
                           "dupnames": rng.random() < 0.25,
+                          "attrs": [rng.choice(ATTRS) for _ in range(8)] if rng.random() < 0.35 else None,
                           "api": rng.choice(["validate_zipfile", "open_zipfile", "validate_zip_bytesio"])})
         return {"mode": "predicate", "cases": cases}
     steps = []
@@ -149,7 +154,7 @@ def gen_case(rng: random.Random, tier: str) -> dict:
             e = rng.choice([x for x in EXTS if x in _containers])
         doc = rng.choice(_containers[e])
         forge = rng.choice(["none", "none", "single_over", "single_at", "entry_ratio_over", "entry_ratio_at", "total_ratio_over", "zero_compressed",
-                            "total_over", "dir_huge"])
+                            "total_over", "dir_huge", "single_over_dosdir", "entry_ratio_over_dosdir"])
         steps.append({"doc": doc, "forge": forge, "member": rng.randrange(1 << 20), "reuse_stream": rng.random() < 0.5, "pos": rng.choice([0, 0, 3, 10 ** 7]),
                       "entry": rng.choice(["direct", "direct", "read_file", "archive_member"])})
     return {"mode": "ordering", "steps": steps}
@@ -157,11 +162,13 @@ def gen_case(rng: random.Random, tier: str) -> dict:
 
 # ------------------------------------------------------------------------------------------------ realisations
 class FakeZip:
-    def __init__(self, entries, dupnames=False):
+    def __init__(self, entries, dupnames=False, attrs=None):
         self._infos = []
         for i, (fs, cs, d) in enumerate(entries):
             zi = zipfile.ZipInfo((f"e{i % 2}" if dupnames else f"e{i}") + ("/" if d else ".bin"))
             zi.file_size, zi.compress_size = fs, cs
+            if attrs and not d:
+                zi.external_attr = attrs[i % len(attrs)]
             self._infos.append(zi)
 
     def infolist(self):
@@ -171,7 +178,7 @@ class FakeZip:
         pass
 
 
-def real_zip(entries, dupnames=False) -> bytes:
+def real_zip(entries, dupnames=False, attrs=None) -> bytes:
     """a real ZIP (tiny stored members) whose central directory is forged to the given sizes"""
     import warnings
     bio = io.BytesIO()
@@ -181,11 +188,12 @@ def real_zip(entries, dupnames=False) -> bytes:
             for i, (fs, cs, d) in enumerate(entries):
                 z.writestr(zipfile.ZipInfo((f"e{i % 2}" if dupnames else f"e{i}") + ("/" if d else ".bin")), b"" if d else b"x")
     data = bytearray(bio.getvalue())
-    forge_cd(data, {i: (fs, cs) for i, (fs, cs, d) in enumerate(entries)})
+    forge_cd(data, {i: (fs, cs) for i, (fs, cs, d) in enumerate(entries)},
+             {i: attrs[i % len(attrs)] for i, (_f, _c, d) in enumerate(entries) if not d} if attrs else None)
     return bytes(data)
 
 
-def forge_cd(data: bytearray, sizes: dict[int, tuple[int, int]]):
+def forge_cd(data: bytearray, sizes: dict[int, tuple[int, int]], attrs: dict[int, int] | None = None):
     """overwrite (uncompressed, compressed) size fields of central-directory records by index; values must fit 32 bits"""
     i = 0
     idx = 0
@@ -196,6 +204,8 @@ def forge_cd(data: bytearray, sizes: dict[int, tuple[int, int]]):
         if idx in sizes:
             fs, cs = sizes[idx]
             struct.pack_into("<II", data, i + 20, cs & 0xFFFFFFFF, fs & 0xFFFFFFFF)
+        if attrs and idx in attrs:
+            struct.pack_into("<I", data, i + 38, attrs[idx] & 0xFFFFFFFF)  # external file attributes
         nl, el, cl = struct.unpack_from("<HHH", data, i + 28)
         i += 46 + nl + el + cl
         idx += 1
@@ -222,7 +232,7 @@ def _run_predicate(case, log, viol, probes, nontriv):
         try:
             if c["real"]:
                 probes["forged_real_zip"] = probes.get("forged_real_zip", 0) + 1
-                data = real_zip(ents, c.get("dupnames", False))
+                data = real_zip(ents, c.get("dupnames", False), c.get("attrs"))
                 bio = io.BytesIO(data)
                 p0 = min(c["pos"], len(data))
                 bio.seek(p0)
@@ -247,7 +257,7 @@ def _run_predicate(case, log, viol, probes, nontriv):
             else:
                 probes["in_memory_zipinfo_list"] = probes.get("in_memory_zipinfo_list", 0) + 1
                 try:
-                    zip_bomb.validate_zipfile(FakeZip(ents, c.get("dupnames", False)), limits=limits, source="sim")
+                    zip_bomb.validate_zipfile(FakeZip(ents, c.get("dupnames", False), c.get("attrs")), limits=limits, source="sim")
                     got = None
                 except ExtractionZipBombError:
                     got = "reject"
@@ -265,6 +275,8 @@ def _run_predicate(case, log, viol, probes, nontriv):
                          "detail": f"{api}: reference says {'reject by ' + want if want else 'accept'}, guard {'rejected' if got else 'accepted'}; entries={ents[:6]} limits={lim}",
                          "case": {"mode": "predicate", "cases": [c]}})
         probes["predicate_reject" if want else "predicate_accept"] = probes.get("predicate_reject" if want else "predicate_accept", 0) + 1
+        if c.get("attrs") and any(not d for _a, _b, d in ents):
+            probes["file_entry_with_directory_attribute"] = probes.get("file_entry_with_directory_attribute", 0) + 1
         if c.get("dupnames") and len(ents) > 2:
             probes["duplicate_entry_names"] = probes.get("duplicate_entry_names", 0) + 1
         if any(d for _a, _b, d in ents):
@@ -309,6 +321,11 @@ def _forge_container(data: bytes, forge: str, member: int):
     G = 1 << 30
     if forge == "single_over":
         forge_cd(b, {k: (G + 1, max(cs, (G + 1) // 150 + 1))})
+    elif forge == "single_over_dosdir":
+        forge_cd(b, {k: (G + 1, max(cs, (G + 1) // 150 + 1))}, {k: 0x10 | (0o40755 << 16)})
+    elif forge == "entry_ratio_over_dosdir":
+        c2 = max(1, cs)
+        forge_cd(b, {k: (c2 * 500 + 1, c2)}, {k: 0x10})
     elif forge == "single_at":
         forge_cd(b, {k: (G, max(cs, G // 150 + 1))})
     elif forge == "entry_ratio_over":
